@@ -6,6 +6,7 @@ package gabi
 
 import (
 	"slices"
+	"sync"
 
 	"github.com/go-errors/errors"
 	"github.com/privacybydesign/gabi/big"
@@ -23,6 +24,10 @@ type Credential struct {
 	NonRevocationWitness *revocation.Witness `json:"nonrevWitness,omitempty"`
 
 	nonrevCache chan *NonRevocationProofBuilder
+	// nonrevCacheLock guards the (lazy) creation and reading of the nonrevCache field itself,
+	// so that NonrevPrepareCache may be called for the first time while other goroutines
+	// already use the credential.
+	nonrevCacheLock sync.Mutex
 }
 
 // DisclosureProofBuilder is an object that holds the state for the protocol to
@@ -197,11 +202,23 @@ func (ic *Credential) nonrevConsumeBuilder() (*NonRevocationProofBuilder, error)
 	// lest we totally break security: reusing randomizers in a second session makes it possible
 	// for the verifier to compute our revocation witness e from the proofs
 	select {
-	case b := <-ic.nonrevCache:
+	case b := <-ic.nonrevCacheChan(false): // receiving from a nil (not yet created) channel is never ready
 		return b, b.UpdateCommit(ic.NonRevocationWitness)
 	default:
 		return ic.NonrevBuildProofBuilder()
 	}
+}
+
+// nonrevCacheChan returns the nonrevocation proof builder cache channel, creating it first if
+// it does not exist yet and create is true. All accesses to the nonrevCache field go through
+// this function, so that concurrent (first time) use of the cache is free of data races.
+func (ic *Credential) nonrevCacheChan(create bool) chan *NonRevocationProofBuilder {
+	ic.nonrevCacheLock.Lock()
+	defer ic.nonrevCacheLock.Unlock()
+	if ic.nonrevCache == nil && create {
+		ic.nonrevCache = make(chan *NonRevocationProofBuilder, 1)
+	}
+	return ic.nonrevCache
 }
 
 // NonrevPrepareCache ensures that the Credential's non-revocation proof builder cache is
@@ -211,13 +228,11 @@ func (ic *Credential) NonrevPrepareCache() error {
 	if ic.NonRevocationWitness == nil {
 		return nil
 	}
-	if ic.nonrevCache == nil {
-		ic.nonrevCache = make(chan *NonRevocationProofBuilder, 1)
-	}
+	cache := ic.nonrevCacheChan(true)
 	var b *NonRevocationProofBuilder
 	var err error
 	select {
-	case b = <-ic.nonrevCache:
+	case b = <-cache:
 		Logger.Trace("updating existing nonrevocation commitment")
 		err = b.UpdateCommit(ic.NonRevocationWitness)
 	default:
@@ -231,7 +246,7 @@ func (ic *Credential) NonrevPrepareCache() error {
 	// put it back in the channel, waiting to be consumed by nonrevConsumeBuilder()
 	// if the channel has already been populated by another goroutine in the meantime we just discard
 	select {
-	case ic.nonrevCache <- b:
+	case cache <- b:
 	default:
 	}
 
